@@ -56,6 +56,31 @@ def forgetting(chk, rigbin):
     chk.note("forgetting: after %d later attachments the lookup found=%s and RemoteAddr() of the accepted connection is %r" % (flood[0]["n"], look[0]["found"], acc[0]["addr"]))
 
 
+def reread_scenarios(chk, quick):
+    """Deterministic companions of the generated behaviours: one session per
+    scenario, established through a carrier with a given client_ip (valid v4,
+    valid v6, absent, invalid); once its streams are complete the epilogue
+    attaches further carriers presenting the SAME ClientID with a different, an
+    absent and an invalid client_ip, opens a later stream and - in the flood
+    scenario - lets more other ClientIDs attach than the address memory holds
+    (10240 = clientIDAddrMapCapacity, a constant of server/lib).  One of them
+    loses its first carrier before the later reads."""
+    out = []
+    for i, ip in enumerate(["192.0.2.7", "2001:db8::5", None, "not-an-ip", "::ffff:203.0.113.9"]):
+        out.append({"name": "c18-reread-%d" % i, "seed": chk.seed * 100 + i, "addr_reads": True, "sessions": [
+            {"up": 4000, "down": 4000, "carriers": [{"label": "", "ip": ip, "pres": "id"}]}],
+            "origin": {"module": "ServerMux", "steps": [["S_SetAddr", [1]], ["S_GetAddr", ["A"]], ["S_Accept", ["A"]], ["later: S_SetAddr of the same id x3, reads"]]}})
+    out.append({"name": "c18-reread-cut", "seed": chk.seed * 100 + 7, "addr_reads": True, "sessions": [
+        {"up": 60000, "down": 60000, "carriers": [
+            {"label": "", "ip": "198.51.100.200", "pres": "id", "fault": {"kind": "cut", "dir": "up", "cls": "time", "nth": 0, "after_ms": 40}},
+            {"label": "", "ip": "0.0.0.0", "pres": "id"}]}],
+        "origin": {"module": "ServerMux", "steps": [["S_Accept", ["A"]], ["S_Cut", [1, "bnd"]], ["S_Open", [2]], ["reads"]]}})
+    out.append({"name": "c18-reread-flood", "seed": chk.seed * 100 + 9, "addr_reads": True, "flood_after": 10300, "stale_ms": 60000, "sessions": [
+        {"up": 3000, "down": 3000, "carriers": [{"label": "", "ip": "203.0.113.77", "pres": "id"}]}],
+        "origin": {"module": "ServerMux", "steps": [["S_Accept", ["A"]], ["10300 x S_SetAddr of other ids"], ["reads"]]}})
+    return out
+
+
 def run_rig_part(chk, args):
     q = chk.tier == "quick"
     rigbin = vlib.go_build("./cmd/corerig", "corerig", linkflag=True)
@@ -74,6 +99,13 @@ def run_rig_part(chk, args):
     # behaviours with many client_ip spellings; small payloads (addresses matter here, not bytes)
     num = 24 if q else 300
     scenarios, infos = c05.generate(chk, ["Gen_b.cfg", "Gen_c.cfg", "Gen_a.cfg"], num, 80, "c18", sizes=[3000, 20000, 60000], kinds=("cut",))
+    # The address is fixed when the session is established: RemoteAddr() of every accepted connection is read
+    # again at later moments (harness/rig/c18addr.go: after later carriers of the same ClientID, at the end, after
+    # probe carriers with another / no / an invalid client_ip, for a later stream); TLC compares every read with
+    # sessAddr (ServerMux_Trace.TAddrRead).
+    for sc in scenarios:
+        sc["addr_reads"] = True
+    scenarios += reread_scenarios(chk, q)
     results, summary, out, races = corerig.run_rig(rigbin, scenarios, par=48, timeout=600, tag="c18")
     chk.note("core rig (addresses): %d scenarios, %d done, %d stalled, %d dials" % (summary["cases"], summary["done"], summary["stalled"], summary["dials"]))
     if summary.get("orphans"):
@@ -91,9 +123,18 @@ def run_rig_part(chk, args):
             chk.fail("model check %s failed in the model alone: %s\n%s" % (cfg, r.error, r.out[-1500:]))
     # measured coverage of the rig part
     accepts, ips, multi, changed = 0, set(), 0, 0
+    rereads, reread_kinds, reread_after_change = 0, {}, 0
     for n, res in results.items():
-        seen = {}
+        seen, at_accept = {}, {}
         for e in res["events"]:
+            if e["ev"] == "app.accept" and e.get("nth") == 1:
+                at_accept[e["id"]] = e["addr"]
+            if e["ev"] == "app.addr":
+                rereads += 1
+                reread_kinds[e["when"]] = reread_kinds.get(e["when"], 0) + 1
+                a = seen.get(e["id"], [])
+                if a and e["id"] in at_accept and a[-1] != at_accept[e["id"]]:
+                    reread_after_change += 1     # the latest Set for this ClientID differs from the address the connection had when accepted
             if e["ev"] == "car.open":
                 ips.add(e["ip"])
             if e["ev"] == "srv.attached":
@@ -115,7 +156,16 @@ def run_rig_part(chk, args):
         chk.fail("vacuous rig part: %d accepts, %d client_ip values" % (accepts, len(ips)))
     if multi == 0:
         chk.fail("vacuous rig part: no session was established after carriers with different addresses")
+    chk.cov["rig_later_reads_of_remoteaddr"] = rereads
+    chk.cov["rig_later_reads_by_moment"] = reread_kinds
+    chk.cov["rig_later_reads_after_a_different_set"] = reread_after_change
+    chk.note("later reads of RemoteAddr(): %d (%s); %d of them after a carrier with a different sanitised address had attached for the same ClientID" % (
+        rereads, ", ".join("%s %d" % kv for kv in sorted(reread_kinds.items())), reread_after_change))
+    need = ("attached", "end", "probe", "later-stream", "evicted")
+    if reread_after_change < 10 or any(k not in reread_kinds for k in need):
+        chk.fail("vacuous rig part: later reads of RemoteAddr() incomplete: %s, after a different Set: %d" % (reread_kinds, reread_after_change))
     chk.assumptions += [
         "rig part: the expected address of each concrete client_ip string is the table SanitTable of spec/ServerMux (contract restricted to the strings the rig sends)",
         "rig part: forgetting (10240 later attachments before the session is established) is provoked once, in the thorough tier only (the capacity is a constant of server/lib)",
+        "rig part: RemoteAddr() of every accepted connection is read again after later carriers of the same ClientID (different / absent / invalid client_ip), at the end, for a later stream and after 10300 other ClientIDs attached; every read must equal the address looked up at session establishment (sessAddr)",
     ]
